@@ -15,6 +15,19 @@ FORBIDDEN = {'eval', 'exec', 'compile', 'open', '__import__', 'getattr', 'setatt
 DEC_NAMES = ('decimal.Decimal', 'Decimal')
 
 
+STR_PURE = {
+    'capitalize': ('str', (0, 0)), 'casefold': ('str', (0, 0)), 'center': ('str', (1, 2)), 'expandtabs': ('str', (0, 1)),
+    'ljust': ('str', (1, 2)), 'rjust': ('str', (1, 2)), 'swapcase': ('str', (0, 0)), 'title': ('str', (0, 0)), 'zfill': ('str', (1, 1)),
+    'removeprefix': ('str', (1, 1)), 'removesuffix': ('str', (1, 1)),
+    'isalnum': ('bool', (0, 0)), 'isalpha': ('bool', (0, 0)), 'isascii': ('bool', (0, 0)), 'isdecimal': ('bool', (0, 0)),
+    'isdigit': ('bool', (0, 0)), 'isidentifier': ('bool', (0, 0)), 'islower': ('bool', (0, 0)), 'isnumeric': ('bool', (0, 0)),
+    'isprintable': ('bool', (0, 0)), 'isspace': ('bool', (0, 0)), 'istitle': ('bool', (0, 0)), 'isupper': ('bool', (0, 0)),
+    'rfind': ('int', (1, 3)), 'rindex': ('int', (1, 3)),
+    'splitlines': ('strlist', (0, 1)), 'rsplit': ('strlist', (0, 2)),
+    'partition': ('strtuple3', (1, 1)), 'rpartition': ('strtuple3', (1, 1)),
+}
+
+
 def F_CAP():
     from .families import CAP
     return CAP
@@ -851,6 +864,8 @@ class Stubs:
         if ex.branch(L.is_Str(recv), 'm-str'):
             m = getattr(self, 'str_' + name, None)
             if m is None:
+                if name in STR_PURE:
+                    return self.str_pure_method(ex, recv, name, args, kwargs)
                 return self.unmodelled_method(ex, recv, 'str', name, args)
             return m(ex, recv, args, kwargs)
         if ex.branch(L.is_Tuple(recv), 'm-tuple'):
@@ -904,6 +919,36 @@ class Stubs:
                               z3.Const(ex.fresh_name('dhas'), z3.ArraySort(Val, B)),
                               z3.Const(ex.fresh_name('dval'), z3.ArraySort(Val, Val)), None)
         return self.unknown_call(ex, '%s.%s' % (tag, name), [recv] + [ex.to_val(a) for a in args])
+
+    def str_pure_method(self, ex, recv, name, args, kwargs):
+        """the side-effect free str methods: result kind and length bounds only"""
+        kind, nargs = STR_PURE[name]
+        vals = [ex.to_val(a) for a in args]
+        if len(vals) > nargs[1] or len(vals) < nargs[0] or kwargs:
+            ex.raise_('TypeError', '%s() takes %s arguments' % (name, nargs))
+        ex.may_raise(['TypeError', 'ValueError'], 'bad argument to str.%s' % name)
+        n = L.slen(Val.s(recv))
+        if kind == 'bool':
+            return L.BoolV(L.UF('str_%s' % name, I, B)(Val.s(recv)))
+        if kind == 'int':
+            j = ex.fresh_int(name)
+            ex.assume(z3.And(j >= -1, j <= n + 1))
+            return L.IntV(j)
+        if kind == 'str':
+            return ex.fresh_str(name)
+        if kind == 'strlist':
+            m = ex.fresh_int('nparts')
+            ex.assume(z3.And(m >= 0, m <= n + 1))
+            arr = z3.Const(ex.fresh_name('parts'), z3.ArraySort(I, Val))
+            ex.note_array_elems(arr, 'strs')
+            r = ex.new_list(m, arr)
+            ex.event('write', 'list', 'split', r, z3.IntVal(0), m, ())
+            ex.event('list_from_str', r, recv)
+            return L.ListV(r)
+        if kind == 'strtuple3':
+            r = ex.new_list_from([ex.fresh_str('p0'), ex.fresh_str('p1'), ex.fresh_str('p2')], 'tuple')
+            return L.TupleV(r)
+        raise Unsupported(kind)
 
     # list methods
     def list_append(self, ex, recv, r, args, kwargs):
